@@ -101,6 +101,11 @@ def run_job(job):
                                  f"echo $n > '{mid_file}'\n")
                     faults.append(f"cmd@site={site}@sh {probe}")
                 plan = Plan(sc["pseed"], sc["strategy"], faults=faults)
+                if sc.get("decisions") is not None:
+                    dpath = os.path.join(wl.ctl, f"decisions_in_{wl.n}.txt")
+                    with open(dpath, "w") as fh:
+                        fh.write("\n".join(str(x) for x in sc["decisions"]) + "\n")
+                    plan = Plan(sc["pseed"], "replay", faults=faults, decisions_in=dpath)
                 env_extra = {"MAKEFLAGS": makeflags, "CARGO_MAKEFLAGS": None}
                 syslog = os.path.join(wl.ctl, f"r{wl.n}.syslog")
                 if sc.get("sysfault"):
@@ -109,6 +114,12 @@ def run_job(job):
                 r = sim_link(argv, d, plan, tag=f"r{wl.n}", ctl_dir=wl.ctl, env_extra=env_extra,
                              pass_fds=pass_fds)
                 check_sim_health(r, f"js job {index} scenario {sc}")
+                if job.get("want_decisions"):
+                    try:
+                        with open(r.decisions_path) as fh:
+                            res["decisions"] = [int(x) for x in fh.read().split()]
+                    except (FileNotFoundError, ValueError):
+                        res["decisions"] = []
                 left = drain(rfd)
             finally:
                 os.close(rfd)
